@@ -42,14 +42,21 @@ def check(replay=None):
     if not r.deadlock:
         raise ToolError("negative control failed: Coalesce without notify_head should deadlock")
     # C: stress traces of the real queue
-    runs = [(4, 200, "all"), (8, 200, "limit2"), (8, 100, "none"), (16, 100, "limit5"), (3, 400, "all")]
+    # (threads, iterations, policy, ring size; 0 = the real 65536)
+    runs = [(4, 200, "all", 0), (8, 200, "limit2", 0), (8, 100, "none", 0), (16, 100, "limit5", 0), (3, 400, "all", 0),
+            (8, 200, "all", 2), (8, 200, "limit2", 3), (16, 100, "none", 4), (6, 300, "limit5", 1)]
     if thorough:
-        runs = runs * 6 + [(32, 100, "all"), (64, 50, "limit2")]
+        runs = runs * 6 + [(32, 100, "all", 0), (64, 50, "limit2", 0), (32, 100, "limit2", 5), (64, 50, "all", 7)]
     jobs = []
-    for i, (t, it, pol) in enumerate(runs):
-        jobs.append(["coalesce-stress", str(t), str(it), pol, os.path.join(wd, f"co{i}.ndjson"), "60"])
+    for i, (t, it, pol, slots) in enumerate(runs):
+        jobs.append(["coalesce-stress", str(t), str(it), pol, os.path.join(wd, f"co{i}.ndjson"), "60", str(slots)])
     res = run_vh_parallel(jobs, timeout=400)
-    for i, (t, it, pol) in enumerate(runs):
+    for x in res:
+        for v in x.get("violations", []):
+            out.violation(v["replay"], json.dumps(v["mismatch"])[:300])
+    for i, (t, it, pol, slots) in enumerate(runs):
+        if res[i].get("crashed"):
+            continue
         tp = os.path.join(wd, f"co{i}.ndjson")
         cfg = cfg_text(spec="TraceSpec", postcondition="TraceAccepted")
         r = run_tlc("Trace_Coalesce", cfg, wd, f"tco{i}", workers=1, timeout=1200, dfs=True, heap="3g", env_extra={"TRACE": tp})
@@ -64,9 +71,9 @@ def check(replay=None):
             g = re.findall(r'"GUARD-FAILED",\s*"([^"]+)"', text)
             lines = open(tp).read().splitlines()
             at = int(m.group(1)) if m else 0
-            path = vlib.save_replay(PROP, "coalesce", {"threads": t, "iters": it, "policy": pol, "guard": g[-1] if g else None,
+            path = vlib.save_replay(PROP, "coalesce", {"threads": t, "iters": it, "policy": pol, "slots": slots, "guard": g[-1] if g else None,
                                                        "rejected_event": json.loads(lines[at]) if at < len(lines) else None})
-            out.violation(path, f"coalesce stress {t}x{it} {pol}: guard={g[-1] if g else None} event={lines[at][:200] if at < len(lines) else None}")
+            out.violation(path, f"coalesce stress {t}x{it} {pol} ring={slots}: guard={g[-1] if g else None} event={lines[at][:200] if at < len(lines) else None}")
         else:
             out.traces += 1
             out.extra["queue_events_validated"] = out.extra.get("queue_events_validated", 0) + nlines
